@@ -69,15 +69,18 @@ func (g *gen) blockLines(b *blk, c sctx) []line {
 		out := make([]line, len(ls))
 		for i, l := range ls {
 			ind := ""
+			verbatim := strings.HasPrefix(l, "\x00") // continues a code span, raw tag or title: leading spaces would be content
+			l = strings.TrimPrefix(l, "\x00")
 			switch {
 			case i == 0:
 				ind = g.indent(c)
+			case verbatim:
 			case g.free() && g.r.Intn(5) == 0:
 				ind = strings.Repeat(" ", g.r.Range(1, 7)) // stripped from continuation lines
 				g.f("spelling:continuation-indent")
 			}
 			out[i] = line{text: ind + l, sp: len(ind)}
-			if i > 0 && c.quoteOnly && c.inQuote && g.free() && ind == "" && startsWithWord(l) && g.r.Intn(5) == 0 {
+			if i > 0 && !verbatim && c.quoteOnly && c.inQuote && g.free() && ind == "" && startsWithWord(l) && g.r.Intn(5) == 0 {
 				out[i].lazy = true
 				g.f("spelling:lazy-continuation")
 			}
@@ -88,7 +91,7 @@ func (g *gen) blockLines(b *blk, c sctx) []line {
 		return out
 	case kATX:
 		ind := g.indent(c)
-		l := ind + strings.Repeat("#", b.level) + g.spaces(1, 3) + strings.Join(g.inlineLines(b.inl), " ")
+		l := ind + strings.Repeat("#", b.level) + g.spaces(1, 3) + strings.ReplaceAll(strings.Join(g.inlineLines(b.inl), " "), "\x00", "")
 		if b.closing {
 			l += g.spaces(1, 2) + strings.Repeat("#", 1+b.level%3) + g.trailing()
 		}
@@ -101,6 +104,7 @@ func (g *gen) blockLines(b *blk, c sctx) []line {
 			if i == 0 {
 				ind = g.indent(c)
 			}
+			l = strings.TrimPrefix(l, "\x00")
 			out = append(out, line{text: ind + l, sp: len(ind)})
 		}
 		ch, n := "=", 3+len(ls)%4
